@@ -123,8 +123,26 @@ fn main() {
             }
             println!("{}", out.to_json());
         }
+        Some("dump") => {
+            // authoring aid: decoded instructions and handler table of every code block of one source file
+            let src = std::fs::read_to_string(&args[1]).expect("source file");
+            let (run, completion) = observe(&src, false);
+            println!("completion: {completion}");
+            let mut ids: Vec<_> = run.dumps.keys().copied().collect();
+            ids.sort_unstable();
+            for id in ids {
+                let d = &run.dumps[&id];
+                println!("== block {} `{}` registers {} flags {:#x}", d.id, d.name, d.register_count, d.flags);
+                for h in &d.handlers {
+                    println!("   handler [{}, {}) env {}", h.start, h.end, h.environment_count);
+                }
+                for i in &d.instructions {
+                    println!("   {:5} {} {:?}", i.pc, i.opcode, i.operands);
+                }
+            }
+        }
         _ => {
-            eprintln!("usage: vc03 learn|check <programs.jsonl>");
+            eprintln!("usage: vc03 learn|check <programs.jsonl> | dump <file.js>");
             std::process::exit(2);
         }
     }
